@@ -96,14 +96,17 @@ def compare(run, cname, path, text, impl_defs, impl_usages, same_model, cases, f
         parts = u.rsplit(":", 3)
         gu[(parts[3], int(parts[1]))] += 1
     wu = Counter()
+    opaque = []
     for u in sp["usages"]:
-        ln = u["line"]
-        if u.get("span") is None and "lit" in u and u["lit"][0] != u["lit"][2] and (u["name"], ln) not in gu:
-            # a literal over several lines whose source does not spell the name through a
-            # transparent token: the usage belongs to the literal, on whichever of its lines
-            alt = [l for (nm, l) in gu if nm == u["name"] and u["lit"][0] <= l <= u["lit"][2]]
-            if alt:
-                ln = alt[0]
+        if u.get("span") is None and "lit" in u and u["lit"][0] != u["lit"][2]:
+            opaque.append(u)
+        else:
+            wu[(u["name"], u["line"])] += 1
+    for u in opaque:
+        # a literal over several lines whose source does not spell the name through a transparent token: the
+        # usage belongs to the literal, on whichever of its lines the index has one to spare
+        lines = [u["line"]] + [l for l in range(u["lit"][0], u["lit"][2] + 1) if l != u["line"]]
+        ln = next((l for l in lines if gu[(u["name"], l)] > wu[(u["name"], l)]), u["line"])
         wu[(u["name"], ln)] += 1
     if wu != gu:
         n += 1
